@@ -10,13 +10,19 @@ Every family follows the same flow:
      the recorded integer observations against the declarative definitions (MISMATCH lines);
      real-valued observations are compared by the harness with the spec-derived values.
 
-Tolerances (calibration on the pinned tree, see _calibration notes at each family):
-  weights      rtol 1e-12   (largest deviation measured 4.5e-16; a wrong scheme is off by >= 1e-2)
-  box origin   atol 1e-12   (measured <= 9e-16)
-  interpolation: |err| <= 2e-9 * scale / h^nu  (measured <= 3e-12 * scale / h^nu, mutants >= 1e-3),
-               scale = sum |c| |x|^i |y|^j |z|^k over the grid box (for the log variant: times f)
-  cube files   geometry 5.1e-7 absolute (printed with 6 decimals), data 5.1e-6 relative (6 digits),
-               exact for values that are printable without rounding
+Tolerances (calibration on the pinned tree, quick+thorough, seeds 0-2; the measured maxima are
+also written to evidence coverage.measured_max_errors on every run):
+  weights      rational schemes rtol 1e-12 (measured 5.6e-16), Fourier1 rtol 1e-10 (measured 1.2e-15);
+               a wrong scheme is off by >= 1e-2
+  box origin   atol 1e-12 (measured 8.9e-16; dyadic inputs, the arithmetic is exact up to the division by
+               the total charge)
+  interpolation |err| <= 2e-9 * scale / h^nu, i.e. 9e6 * eps * scale / h^nu (measured <= 91 * eps * scale / h^nu;
+               every interpolation mutant >= 1e14 * eps * scale / h^nu), scale = sum |c| |X|^i |Y|^j |Z|^k over the grid box (for the log
+               variant exp(that sum)), h^nu = prod_d (smallest node distance along d)^nu_d; linear: 1e-12 * scale
+               (measured 2.2e-16)
+  cube files   values that are printable without rounding must be read back bit-identically; arbitrary doubles
+               to half a unit of the last printed digit (geometry 5.01e-7 absolute, data 5.01e-6 relative);
+               angstrom factor rtol 1e-8 (spec constant truncated at 2e-10, CODATA revisions differ by 7e-10)
 """
 from __future__ import annotations
 
@@ -65,7 +71,7 @@ class _NotInt(Exception):
 def _int(x) -> int:
     """Exact integer value of an observation (the layout cases are integer lattices)."""
     f = float(x)
-    if not math.isfinite(f) or f != int(f):
+    if not math.isfinite(f) or f != int(f) or abs(f) >= 2 ** 30:     # TLC integers are 32 bit
         raise _NotInt(repr(x))
     return int(f)
 
@@ -801,8 +807,8 @@ MUTANTS = [
     ("closest-floor", "closest_point", "coord = np.rint(coord)", "coord = np.floor(coord)"),
     ("closest-origin-ceil", "closest_point", "coord = np.floor(coord)", "coord = np.ceil(coord)"),
     ("cube-five-per-line", "cube", "num_chunks = 6", "num_chunks = 5"),
-    ("cube-angstrom-origin-not-scaled", "cube", "                origin *= ANGSTROM_TO_BOHR\n", ""),
-    ("cube-angstrom-atoms-not-scaled", "cube", "                coordinates *= ANGSTROM_TO_BOHR\n", ""),
+    ("cube-angstrom-origin-not-scaled", "cube", "origin *= ANGSTROM_TO_BOHR", "origin *= 1.0"),
+    ("cube-angstrom-atoms-not-scaled", "cube", "coordinates *= ANGSTROM_TO_BOHR", "coordinates *= 1.0"),
     ("cube-angstrom-inverse-factor", "cube", "axes *= ANGSTROM_TO_BOHR", "axes /= ANGSTROM_TO_BOHR"),
     ("cube-data-precision", "cube", '" {:12.5E}"', '" {:12.4E}"'),
     ("cube-pseudo-numbers-dropped", "cube", "for i, q, (x, y, z) in zip(atnums, pseudo_numbers, atcoords):", "for i, q, (x, y, z) in zip(atnums, atnums.astype(float), atcoords):"),
@@ -860,3 +866,24 @@ def selftest(tier: str = "quick") -> int:
         print(f"mutant {name:36s} [{fam}] -> {'VIOLATION x%d, e.g. %s' % (len(fresh), fresh[0]['key'][:110]) if fresh else 'MISSED'}", flush=True)
     print(f"selftest: {len(killed)} killed, {len(missed)} missed {missed}")
     return 0 if not missed else 1
+
+
+def replay(path: str) -> int:
+    """Re-run the family of a recorded violation with its seed; exit 1 if the same key is reported again."""
+    with open(path) as f:
+        v = json.load(f)
+    os.environ["VERIF_SEED"] = str(v.get("seed", 0))
+    tier = v.get("tier", "quick")
+    fams = {"layout": _family_layout, "weights": _family_weights, "from_molecule": _family_box,
+            "closest_point": _family_closest, "cube": _family_cube, "interp": _family_interp}
+    key = v["key"]
+    prefix = key.split(":")[1] if key.startswith("model:") else key.split(":")[0]
+    prefix = {"box": "from_molecule", "closest": "closest_point", "interpolation": "interp"}.get(prefix, prefix)
+    rep = Report(PROP, tier, "model_checking")
+    wd = tlc.scratch(f"{PROP}-replay")
+    for name, fam in fams.items():
+        if name == prefix or prefix not in fams:
+            fam(rep, tier, wd)
+    again = [x for x in rep.violations if x["key"] == key]
+    print(f"replay {key}: " + (f"reproduced: {again[0]['what'][:300]}" if again else "not reproduced"))
+    return 1 if again else 0
